@@ -215,6 +215,12 @@ func TestVerifReplay(t *testing.T) {
 // <labels>", "PASS" or "SKIPPED". A vector whose run kills the process
 // (unrecovered panic in a goroutine of the code under test) counts as FAIL.
 func nativeReplay(paths []string, harnesses []string) (map[string]string, string, error) {
+	return nativeReplayMode(paths, harnesses, false)
+}
+
+// nativeReplayMode with race=true builds the replay test with the Go race detector: used to
+// confirm lock-discipline counterexamples (a reported DATA RACE while the vector runs = FAIL).
+func nativeReplayMode(paths []string, harnesses []string, race bool) (map[string]string, string, error) {
 	tmp, err := os.MkdirTemp("", "verif-replay-")
 	if err != nil {
 		return nil, "", err
@@ -250,7 +256,11 @@ func nativeReplay(paths []string, harnesses []string) (map[string]string, string
 	os.WriteFile(ovPath, ovJSON, 0o644)
 	bin := filepath.Join(tmp, "replay.test")
 	env := append(os.Environ(), "GOFLAGS=-mod=mod", "GOPROXY=off", "GOSUMDB=off", "GOTOOLCHAIN=local")
-	build := exec.Command("go", "test", "-c", "-vet=off", "-overlay", ovPath, "-o", bin, ".")
+	buildArgs := []string{"test", "-c", "-vet=off", "-overlay", ovPath, "-o", bin}
+	if race {
+		buildArgs = append(buildArgs, "-race")
+	}
+	build := exec.Command("go", append(buildArgs, ".")...)
 	build.Dir = repoDir
 	build.Env = env
 	if out, err := build.CombinedOutput(); err != nil {
@@ -260,9 +270,13 @@ func nativeReplay(paths []string, harnesses []string) (map[string]string, string
 	var all strings.Builder
 	remaining := append([]string{}, paths...)
 	for len(remaining) > 0 {
+		batch := remaining
+		if race {
+			batch = remaining[:1] // race reports are de-duplicated per process: one vector per run
+		}
 		cmd := exec.Command(bin, "-test.run", "^TestVerifReplay$", "-test.v", "-test.timeout", "600s")
 		cmd.Dir = repoDir
-		cmd.Env = append(env, "VERIF_REPLAY="+strings.Join(remaining, ":"))
+		cmd.Env = append(env, "VERIF_REPLAY="+strings.Join(batch, ":"))
 		outB, _ := cmd.CombinedOutput()
 		out := string(outB)
 		all.WriteString(out)
@@ -277,6 +291,18 @@ func nativeReplay(paths []string, harnesses []string) (map[string]string, string
 					if f[0] == begun {
 						begun = ""
 					}
+				}
+			}
+		}
+		if race && strings.Contains(out, "WARNING: DATA RACE") {
+			// attribute the report to the vector that was running when it was printed
+			cur := ""
+			for _, line := range strings.Split(out, "\n") {
+				if strings.HasPrefix(line, "VERIF-REPLAY-BEGIN ") {
+					cur = strings.TrimSpace(line[len("VERIF-REPLAY-BEGIN "):])
+				}
+				if strings.Contains(line, "WARNING: DATA RACE") && cur != "" {
+					res[cur] = "FAIL [data race reported by the Go race detector]"
 				}
 			}
 		}
@@ -326,6 +352,8 @@ type harnessEvidence struct {
 	Unknowns       int                      `json:"solver_unknowns"`
 	Violations     int                      `json:"violations"`
 	Known          int                      `json:"known_finding_instances"`
+	Threads        bool                     `json:"interpreted_goroutines,omitempty"`
+	SleepBlocked   int                      `json:"interleavings_dropped_as_redundant_by_sleep_sets,omitempty"`
 	Samples        []map[string]interface{} `json:"-"`
 }
 
@@ -428,7 +456,7 @@ func cmdCheck(args []string) int {
 		he := harnessEvidence{Harness: r.Harness, Params: r.Params, Solver: e.SolverK, Paths: st.Paths, Pruned: st.Pruned, Decisions: st.Decisions,
 			MaxDecisions: st.MaxPathDecisions, Steps: st.Steps, Queries: st.Queries, SolverS: st.SolverTime.Seconds(), WallS: time.Since(t1).Seconds(),
 			AssertsReached: st.AssertsReached, AssertsSMT: st.AssertsDischargedBySMT, AssertsFacts: st.AssertsConcrete, FastResolved: st.FastResolved,
-			AssertLabels: st.AssertLabels, Covers: st.Covers, Unknowns: st.Unknowns}
+			AssertLabels: st.AssertLabels, Covers: st.Covers, Unknowns: st.Unknowns, Threads: r.Threads, SleepBlocked: st.SleepBlocked}
 		for _, v := range e.Violations {
 			if !pc.owns(v.Label) {
 				continue
@@ -445,6 +473,9 @@ func cmdCheck(args []string) int {
 			}
 			if r.Stress > 0 {
 				vp["VERIF_STRESS"] = r.Stress
+			}
+			if strings.HasPrefix(v.Label, "lock-discipline/") {
+				vp["VERIF_RACE"] = 1
 			}
 			violParams = append(violParams, vp)
 		}
@@ -510,7 +541,26 @@ func cmdCheck(args []string) int {
 	}
 	tracesValidated := 0
 	if len(rpaths)+len(spaths) > 0 {
-		res, out, err := nativeReplay(append(append([]string{}, rpaths...), spaths...), harnessNames)
+		var plain, racy []string
+		for i, pth := range rpaths {
+			if strings.HasPrefix(allViol[i].Label, "lock-discipline/") {
+				racy = append(racy, pth)
+			} else {
+				plain = append(plain, pth)
+			}
+		}
+		res, out, err := nativeReplay(append(append([]string{}, plain...), spaths...), harnessNames)
+		if err == nil && len(racy) > 0 {
+			res2, out2, err2 := nativeReplayMode(racy, harnessNames, true)
+			err = err2
+			out += out2
+			if res == nil {
+				res = map[string]string{}
+			}
+			for k, v := range res2 {
+				res[k] = v
+			}
+		}
 		if err != nil {
 			fmt.Fprintln(os.Stderr, "replay:", err)
 			return 3
